@@ -761,7 +761,7 @@ impl SvgElement {
         // captured in the 'remain' thing for deferred elements, and is always the same
         // element as evaluated here. Probably need to store a 'prev' (and later, 'next')
         // internal ID with each element so can follow a chain of these.
-        let mut seen: Vec<OrderIndex> = vec![];
+        let mut seen: std::collections::HashSet<OrderIndex> = std::collections::HashSet::new();
         let mut element = self;
 
         while element.name == "use" || element.name == "reuse" {
@@ -783,7 +783,7 @@ impl SvgElement {
                         elref
                     )));
                 }
-                seen.push(el.order_index.clone());
+                seen.insert(el.order_index.clone());
                 element = el;
             } else {
                 return Err(SvgdxError::ReferenceError(elref));
